@@ -250,7 +250,7 @@ def run(ctx):
             t = {'k': 'classify', 'txn': {'description': 'UBER TRIP', 'amount': 12.5, 'field': None, 'source': '', 'location': None}}
             seqs.append([a, b, t])
             seqs.append([b, a, t, b, t, a, a, t])
-            n = 60 if ctx.quick else 2500
+            n = 50 if ctx.quick else 900
             for _ in range(n):
                 seqs.append(gen_sequence(r, r.choice([3, 5, 8, 12])))
         cases, all_labels = [], []
